@@ -45,7 +45,9 @@ class BlockModel(GridObject):
     _attribute_map.update({"Origin": "origin", "Rotation": "rotation"})
 
     def __init__(self, object_type: ObjectType, **kwargs):
-        self._origin: np.ndarray = np.zeros(3)
+        self._origin: np.ndarray = np.asarray(
+            tuple(np.zeros(3)), dtype=[("x", float), ("y", float), ("z", float)]
+        )
         self._rotation: float = 0.0
         self._u_cell_delimiters: np.ndarray | None = None
         self._v_cell_delimiters: np.ndarray | None = None
